@@ -99,6 +99,43 @@ Theorem class_balanced_rank_split : forall c draw, perm_oracle draw -> cb_ctor_o
 Proof. exact cb_split. Qed.
 Print Assumptions class_balanced_rank_split.
 
+(* ---- one sampler object over several epochs: set_epoch(e) .. set_epoch(e') .. set_epoch(e), or list(sampler)
+        twice without set_epoch.  The k-th list(sampler) of ANY call sequence shows exactly what a sampler shows
+        whose epoch is the argument of the last set_epoch before it. ---- *)
+Theorem distributed_object_history : forall c draw rank ops,
+    dist_object c draw rank ops = map (fun e => dist_run (d_set_epoch c e) draw rank) (iter_epochs (d_epoch c) ops).
+Proof. exact dist_object_spec. Qed.
+Print Assumptions distributed_object_history.
+
+Theorem weighted_object_history : forall c draw rank ops,
+    w_object c draw rank ops = map (fun e => w_run (w_set_epoch c e) draw rank) (iter_epochs (w_epoch c) ops).
+Proof. exact w_object_spec. Qed.
+Print Assumptions weighted_object_history.
+
+Theorem class_balanced_object_history : forall c draw rank ops,
+    cb_object c draw rank ops = map (fun e => cb_run (cb_set_epoch c e) draw rank) (iter_epochs (cb_epoch c) ops).
+Proof. exact cb_object_spec. Qed.
+Print Assumptions class_balanced_object_history.
+
+(* hence: two list(sampler) calls under the same epoch show the same *)
+Theorem same_epoch_reproduces : forall (f : Z -> run) es i j e,
+    nth_error es i = Some e -> nth_error es j = Some e -> nth_error (map f es) i = nth_error (map f es) j.
+Proof. exact same_epoch_same_run. Qed.
+Print Assumptions same_epoch_reproduces.
+
+(* ---- shuffle=False: num_repeats > 1 is rejected (the assert in __iter__); otherwise the global draw is 0..n-1 and
+        no generator is seeded or asked ---- *)
+Theorem repeats_require_shuffle : forall c draw rank, d_rep c <> 1 -> d_shuffle c = false ->
+    r_out (dist_run c draw rank) = AssertFail.
+Proof. exact dist_repeats_need_shuffle. Qed.
+Print Assumptions repeats_require_shuffle.
+
+Theorem no_shuffle_yields_dataset_order : forall c draw, d_rep c = 1 -> d_shuffle c = false ->
+    dist_global c draw = Ok (seq 0 (d_n c)) /\
+    forall rank, r_seeds (dist_run c draw rank) = [] /\ r_reqs (dist_run c draw rank) = [].
+Proof. exact dist_no_shuffle. Qed.
+Print Assumptions no_shuffle_yields_dataset_order.
+
 (* ---- non-vacuity of the premises ---- *)
 Example identity_oracle_is_perm_oracle : perm_oracle (fun _ _ n => seq 0 n).
 Proof. intros s h n. apply Permutation_refl. Qed.
@@ -118,3 +155,10 @@ Example cb_ctor_ok_example :
 Proof. vm_compute. reflexivity. Qed.
 Example w_E_example : w_E {| w_n := 5; w_size := Some 3; w_seed := 0; w_epoch := 0; w_W := 2 |} = Ok 3.
 Proof. vm_compute. reflexivity. Qed.
+Example epoch_sequence_example :
+  let c := {| d_n := 4; d_W := 2; d_shuffle := true; d_seed := 0; d_drop := false; d_rep := 1; d_epoch := 0 |} in
+  let draw := (fun (s : Z) (_ : list nat) n => if Z.eqb s 7 then rev (seq 0 n) else seq 0 n) in
+  map r_out (dist_object c draw 1 [SetEpoch 7; Iterate; Iterate; SetEpoch 1; Iterate; SetEpoch 7; Iterate])
+  = [Ok [2; 0]; Ok [2; 0]; Ok [1; 3]; Ok [2; 0]]
+  /\ iter_epochs (d_epoch c) [SetEpoch 7; Iterate; Iterate; SetEpoch 1; Iterate; SetEpoch 7; Iterate] = [7; 7; 1; 7]%Z.
+Proof. vm_compute. split; reflexivity. Qed.
